@@ -174,7 +174,7 @@ class Unit:
         obj = os.path.join(wd, self.key + ('.asan' if sanitize else '') + '.real.o')
         san = ['-fsanitize=address,undefined', '-fno-sanitize-recover=all'] if sanitize else []
         if not os.path.exists(obj):
-            r = run(['g++'] + self.flags() + ['-O1', '-g0', '-w'] + san + ['-c', self.src, '-o', obj])
+            r = run(['g++'] + self.flags() + ['-O1', '-g0', '-w', '-DVERIF_NATIVE_REAL'] + san + ['-c', self.src, '-o', obj])
             if r.returncode != 0:
                 raise BuildError('g++ build of harness failed:\n' + r.stderr[-3000:])
         wrap = [] if sanitize else ['-Wl,--wrap=free']
